@@ -81,6 +81,10 @@ func (w *c14World) checkUse(b, k int, when string) {
 		w.c.Check("ban-late", when, "key k%d is still accepted on broker 0 after the ban was acknowledged (%s)", k, when)
 	case b == 0:
 		w.c.Check("unban-late", when, "key k%d is still refused on broker 0 after the unban was acknowledged (%s)", k, when)
+	case b == 1 && when == "right after the acknowledgement" && exp:
+		w.c.Check("ban-late", when+" b1", "key k%d is still accepted on broker 1 after it acknowledged the ban", k)
+	case b == 1 && when == "right after the acknowledgement":
+		w.c.Check("unban-late", when+" b1", "key k%d is still refused on broker 1 after it acknowledged the unban", k)
 	default:
 		w.c.Check("remote", fmt.Sprintf("%s banned=%v", when, exp), "broker 1 has merged the gossip but answers accepted=%v for key k%d whose ban state is %v (%s)", ok, k, exp, when)
 	}
@@ -108,26 +112,40 @@ func runC14(c *kernel.Ctx) {
 	c.Logf("keys=%d lic=v%d", nk, lic.Ver)
 	steps := t.Range(8, 60)
 	restarts := 0
+	issuer := 0 // which broker receives the keyban requests
 	for s := 0; s < steps && !t.Exhausted(); s++ {
 		c.Step()
 		k := t.Choose(nk)
 		switch op := t.Choose(20); {
-		case op < 8: // ban / unban on broker 0, acknowledged, then used at once
+		case op < 2 && issuer == 0: // the requests move to the other broker (only once everything has been delivered)
+			cl.Drain(2000)
+			copy(w.known1, w.banned)
+			issuer = 1
+			c.Logf("keyban requests now go to b1")
+		case op < 8: // ban / unban, acknowledged, then used at once on the broker that acknowledged
 			ban := t.Chance(1, 2)
 			if t.Chance(2, 3) {
 				ban = !w.banned[k] // mostly real toggles
 			}
 			world.Advance(c, time.Duration(t.Range(1, 50))*time.Microsecond)
-			r, _ := world.Request(c, w.client(0), "keyban", map[string]any{"secret": lic.Master, "target": w.keys[k], "banned": ban})
+			r, _ := world.Request(c, w.client(issuer), "keyban", map[string]any{"secret": lic.Master, "target": w.keys[k], "banned": ban})
 			if r == nil || r.Status != 200 {
 				c.Harnessf("keyban not acknowledged: %+v", r)
 			}
 			w.banned[k] = ban
-			c.Logf("keyban k%d banned=%v acknowledged", k, ban)
+			c.Logf("keyban k%d banned=%v acknowledged by b%d", k, ban, issuer)
 			if ban {
 				c.NonTrivial()
 			}
-			w.checkUse(0, k, "right after the acknowledgement")
+			if issuer == 0 {
+				w.checkUse(0, k, "right after the acknowledgement")
+			} else {
+				w.known1[k] = ban
+				w.checkUse(1, k, "right after the acknowledgement")
+				// broker 0 learns it with the gossip
+				cl.Drain(2000)
+				w.checkUse(0, k, "later")
+			}
 		case op < 11:
 			w.checkUse(0, k, "later")
 		case op < 13: // broker 1 looks the key up with whatever it has merged so far: only the log records it
